@@ -326,9 +326,16 @@ def judge(ctx, module, obs_path, n_records, env=None, timeout=1500, name=None, w
     if env:
         e.update(env)
     r = tlc(ctx, module, "Trace.cfg", env=e, workers=workers, timeout=timeout, name=name or module, xmx=xmx)
+    aborted = False
     if not r["ok"]:
-        tail = "\n".join(r["out"].splitlines()[-40:])
-        raise ToolError("trace validation run of %s failed:\n%s" % (module, tail))
+        # a judge that stops on a malformed observation must not hide the violations it already reported
+        if any(pr[0] == "FAIL" for pr in r["prints"]):
+            aborted = True
+            log("[judge] %s stopped early (TLC evaluation error); reporting the %d failures found so far"
+                % (name or module, sum(1 for pr in r["prints"] if pr[0] == "FAIL")))
+        else:
+            tail = "\n".join(r["out"].splitlines()[-40:])
+            raise ToolError("trace validation run of %s failed:\n%s" % (module, tail))
     fails, drifts = [], []
     tot = {"n": 0, "fail": 0, "skip": 0, "nt": 0, "drift": 0}
     seen_chunks = 0
@@ -344,7 +351,7 @@ def judge(ctx, module, obs_path, n_records, env=None, timeout=1500, name=None, w
             tot["skip"] += pr[4]
             tot["nt"] += pr[5]
             tot["drift"] += pr[6]
-    if seen_chunks != chunks or tot["n"] != n_records:
+    if not aborted and (seen_chunks != chunks or tot["n"] != n_records):
         raise ToolError("trace validation of %s consumed %d of %d records (%d/%d chunks)"
                         % (module, tot["n"], n_records, seen_chunks, chunks))
     ctx.states += r["states"]
